@@ -28,6 +28,12 @@ pub enum ConfigLocation {
   ConfigDirEnv,
   DataDirFlag,
   DataDirEnv,
+  /// --config names the real file, ORD_CONFIG a decoy with other values
+  ConfigFlagOverEnv,
+  /// --config-dir names the real directory, ORD_CONFIG_DIR a decoy directory
+  ConfigDirFlagOverEnv,
+  /// ORD_CONFIG names the real file while --config-dir / --datadir hold decoys
+  ConfigEnvOverDirs,
 }
 
 #[derive(Clone, Debug, Serialize, Deserialize)]
@@ -78,6 +84,10 @@ const BOOL_KEYS: &[&str] = &[
   "no_index_inscriptions",
 ];
 
+/// A config file that must never be read: every key has a value that no
+/// real source uses.
+const DECOY: &str = "bitcoin_rpc_limit: 99991\ncommit_interval: 99992\nheight_limit: 99993\nhttp_port: 9994\nindex_cache_size: 99995\nmax_savepoints: 99996\nsavepoint_interval: 99997\nchain: testnet\nserver_url: decoy-server-url\nbitcoin_rpc_url: decoy-rpc-url\nindex_sats: true\nindex_runes: true\nindex_addresses: true\nindex_transactions: true\nintegration_test: true\nno_index_inscriptions: true\nhidden:\n- 0909090909090909090909090909090909090909090909090909090909090909i9\n";
+
 fn value_for(key: &str, kind: char, source: usize, salt: u16) -> String {
   let n = u32::from(salt) % 50 + 100 * (source as u32 + 1) + 7;
   match kind {
@@ -95,7 +105,10 @@ fn hidden_id(k: u8) -> String {
 fn settings_check(case: &SettingsCase, cx: &Cx) -> CheckResult {
   let dir = scratch_dir();
   let config_path = match case.location {
-    ConfigLocation::ConfigFlag | ConfigLocation::ConfigEnv => dir.path().join("custom.yaml"),
+    ConfigLocation::ConfigFlag
+    | ConfigLocation::ConfigEnv
+    | ConfigLocation::ConfigFlagOverEnv
+    | ConfigLocation::ConfigEnvOverDirs => dir.path().join("custom.yaml"),
     _ => dir.path().join("ord.yaml"),
   };
 
@@ -125,6 +138,29 @@ fn settings_check(case: &SettingsCase, cx: &Cx) -> CheckResult {
     }
     ConfigLocation::DataDirFlag => data_dir_forced = Some((0, dir_string.clone())),
     ConfigLocation::DataDirEnv => data_dir_forced = Some((1, dir_string.clone())),
+    ConfigLocation::ConfigFlagOverEnv => {
+      args.push("--config".into());
+      args.push(config_path.display().to_string());
+      let decoy = dir.path().join("decoy.yaml");
+      std::fs::write(&decoy, DECOY).unwrap();
+      env.insert("CONFIG".into(), decoy.display().to_string());
+    }
+    ConfigLocation::ConfigDirFlagOverEnv => {
+      args.push("--config-dir".into());
+      args.push(dir_string.clone());
+      let decoy_dir = dir.path().join("decoy");
+      std::fs::create_dir_all(&decoy_dir).unwrap();
+      std::fs::write(decoy_dir.join("ord.yaml"), DECOY).unwrap();
+      env.insert("CONFIG_DIR".into(), decoy_dir.display().to_string());
+    }
+    ConfigLocation::ConfigEnvOverDirs => {
+      env.insert("CONFIG".into(), config_path.display().to_string());
+      let decoy_dir = dir.path().join("decoy");
+      std::fs::create_dir_all(&decoy_dir).unwrap();
+      std::fs::write(decoy_dir.join("ord.yaml"), DECOY).unwrap();
+      args.push("--config-dir".into());
+      args.push(decoy_dir.display().to_string());
+    }
   }
 
   for (key, kind, has_flag) in VALUE_KEYS {
@@ -286,7 +322,11 @@ fn settings_check(case: &SettingsCase, cx: &Cx) -> CheckResult {
   hidden.sort();
   hidden.dedup();
 
-  let write_file = !file.is_empty() || matches!(case.location, ConfigLocation::ConfigFlag | ConfigLocation::ConfigEnv);
+  let write_file = !file.is_empty()
+    || matches!(
+      case.location,
+      ConfigLocation::ConfigFlag | ConfigLocation::ConfigEnv | ConfigLocation::ConfigFlagOverEnv | ConfigLocation::ConfigEnvOverDirs
+    );
   if write_file {
     std::fs::write(&config_path, serde_yaml::to_string(&file).unwrap()).unwrap();
   }
@@ -398,6 +438,9 @@ fn settings_strategy() -> BoxedStrategy<SettingsCase> {
     Just(ConfigLocation::ConfigDirEnv),
     Just(ConfigLocation::DataDirFlag),
     Just(ConfigLocation::DataDirEnv),
+    Just(ConfigLocation::ConfigFlagOverEnv),
+    Just(ConfigLocation::ConfigDirFlagOverEnv),
+    Just(ConfigLocation::ConfigEnvOverDirs),
   ];
   (
     values,
@@ -435,8 +478,8 @@ pub fn c36(s: &mut Session) -> Meta {
   s.run_part(Part::new("precedence", cases, settings_strategy, settings_check).shrink_iters(1000));
   Meta {
     level: "exploration",
-    rule: "For 17 value settings, the chain, 6 boolean switches and the hidden list: a generated subset of {command-line flag, ORD_ environment entry, config-file field} sets each with pairwise different values; the config file is located through --config, ORD_CONFIG, --config-dir, ORD_CONFIG_DIR, --datadir or ORD_DATA_DIR. Settings::merge(Options::try_parse_from(args), env) serialised with serde must show, per key, the value of the highest-priority source (documented defaults when none; data dir joined with the chain directory), booleans = OR of all sources, hidden = union of env and file. Non-trivial = at least one key set by >= 2 sources with different values; distinct by case.",
+    rule: "For 17 value settings, the chain, 6 boolean switches and the hidden list: a generated subset of {command-line flag, ORD_ environment entry, config-file field} sets each with pairwise different values; the config file is located through --config, ORD_CONFIG, --config-dir, ORD_CONFIG_DIR, --datadir or ORD_DATA_DIR, and in three further modes a lower-priority location (ORD_CONFIG under --config, ORD_CONFIG_DIR under --config-dir, --config-dir under ORD_CONFIG) points at a decoy file whose values must never show up. Settings::merge(Options::try_parse_from(args), env) serialised with serde must show, per key, the value of the highest-priority source (documented defaults when none; data dir joined with the chain directory), booleans = OR of all sources, hidden = union of env and file. Non-trivial = at least one key set by >= 2 sources with different values; distinct by case.",
     assumptions: &["The environment is passed as the map Settings::merge receives from Settings::load (ORD_ prefix already stripped); process environment is not mutated because workers run in parallel"],
-    required_labels: &["conflicting-sources", "hidden-both", "location-ConfigFlag", "location-ConfigEnv", "location-ConfigDirFlag", "location-ConfigDirEnv", "location-DataDirFlag", "location-DataDirEnv"],
+    required_labels: &["conflicting-sources", "hidden-both", "location-ConfigFlag", "location-ConfigEnv", "location-ConfigDirFlag", "location-ConfigDirEnv", "location-DataDirFlag", "location-DataDirEnv", "location-ConfigFlagOverEnv", "location-ConfigDirFlagOverEnv", "location-ConfigEnvOverDirs"],
   }
 }
